@@ -3,7 +3,7 @@
 
 use std::{fmt, io};
 
-use futures_util::{SinkExt as _, StreamExt as _};
+use futures_util::{FutureExt as _, SinkExt as _, StreamExt as _};
 use tokio::io::{AsyncRead, AsyncWrite};
 use tokio_util::codec::Framed;
 
@@ -65,10 +65,18 @@ where
         framed.read_buffer_mut().clear();
         framed.send(req_adu).await?;
 
-        let res_adu = framed
-            .next()
-            .await
-            .unwrap_or_else(|| Err(io::Error::from(io::ErrorKind::BrokenPipe)))?;
+        let res_adu = match framed.next().await {
+            Some(Ok(res_adu)) => res_adu,
+            Some(Err(err)) => {
+                // After an error the framing layer terminates the stream once
+                // before it resumes reading. Consume this marker now, otherwise
+                // the next call would end prematurely without receiving its response
+                // and the call after that would receive the wrong response.
+                let _ = framed.next().now_or_never();
+                return Err(err.into());
+            }
+            None => return Err(io::Error::from(io::ErrorKind::BrokenPipe).into()),
+        };
         let ResponseAdu {
             hdr: res_hdr,
             pdu: res_pdu,
